@@ -488,6 +488,10 @@ Definition stmt_C13_methods : Prop :=
   forall it ms, gen_is it = Ok ms ->
   map im_variant ms = map ct_variant (enabled_ctors 0 (i_variants it)) /\
   forall m, In m ms -> exists v, nth_error (i_variants it) (im_variant m) = Some v /\ im_name m = (s_ "is_" ++ snakify (v_ident v))%list.
+(* one predicate per value EnumIter yields, in the same order, COUNT of them *)
+Definition stmt_C13_one_per_iterated : Prop :=
+  forall it ms ic n, gen_is it = Ok ms -> gen_iter it = Ok ic -> gen_count it = Ok n ->
+  map im_variant ms = map ct_variant (ic_table ic) /\ length ms = n.
 Definition stmt_C13_partition : Prop :=
   forall it ms i v p, gen_is it = Ok ms -> variant_at it i v p -> vp_disabled p = false ->
   exists m, In m ms /\ im_variant m = i /\ forall m', In m' ms -> (run_is m' i = true <-> im_variant m' = i).
